@@ -548,6 +548,14 @@ func (s *Sched) PendingEvents() int {
 	return len(s.agenda)
 }
 
+// LimitSteps lowers the step budget of this run (scenario variants that are
+// expensive per step).
+func (s *Sched) LimitSteps(n int) {
+	if n < s.cfg.MaxSteps {
+		s.cfg.MaxSteps = n
+	}
+}
+
 // Stop ends the run after the current step.
 func (s *Sched) Stop(reason string) {
 	if s.stopped.CompareAndSwap(false, true) {
